@@ -142,15 +142,18 @@ def _charset(run, P):
     run.ob("C13.charset", f, f.node, ok,
            construct="every other character is replaced by '_'",
            why="replacement must itself be an identifier character")
-    src = ast.unparse(f.node)
-    run.ob("C13.charset", f, f.node, "result.lstrip('_')" in src,
+    from .util import find, has
+    run.ob("C13.charset", f, f.node, has("V_r = V_r.lstrip('_')", f.node),
            construct="leading underscores are stripped",
            why="the persistent tags '<p>' etc. must sanitise to a letter-initial "
                "string; C13.prefix relies on it")
     ok = False
     for n in ast.walk(f.node):
-        if isinstance(n, ast.If) and norm(n.test) == "not result" \
-                and ast.unparse(n.body[0]) == "result = default_identifier":
+        if isinstance(n, ast.If) and isinstance(n.test, ast.UnaryOp) \
+                and isinstance(n.test.op, ast.Not) and isinstance(n.test.operand, ast.Name) \
+                and has(f"{n.test.operand.id} = default_identifier", n.body[0]) \
+                and any(isinstance(r_, ast.Return) and dotted(r_.value) == n.test.operand.id
+                        for r_ in ast.walk(f.node)):
             ok = True
     a = f.node.args
     dflt = a.defaults[-1] if a.defaults else None
